@@ -3,6 +3,7 @@ package main
 import (
 	"fmt"
 	"go/ast"
+	"go/constant"
 	"go/token"
 	"go/types"
 	"regexp"
@@ -350,6 +351,7 @@ func checkC08(c *Check) {
 			w := &c08Walker{c: c, g: g, name: g.co.Spec.Name + ":" + fi.Name(), fn: fi.Name(), json: strings.Contains(nm, "JSON"), tl2: strings.Contains(nm, "TL2"), n: map[string]int{}, noSanity: noSanity}
 			f := &c08Facts{sane: map[string]bool{}, lenGE: map[string]string{}, capGE: map[string]bool{}, counted: map[string]bool{}, zero: map[string]bool{}}
 			w.block(g.ir(fi).Body, f)
+			fixedArrayIndexBounded(c, g, g.co.Spec.Name+":"+fi.Name(), fi)
 		}
 	})
 	// the bound itself: CheckLengthSanity compares in 64 bits (count*minSize in uint32 wraps at 2^32 and lets huge counts through)
@@ -385,4 +387,161 @@ func checkC08(c *Check) {
 	c.Floor("reader/allocation-bounded-by-input", 40)
 	c.Floor("reader/slice-bound-established", 150)
 	c.Floor("reader/loop-terminates", 150)
+	c.Floor("reader/fixed-array-index-bounded", 200)
+}
+
+// fixedArrayIndexBounded: every non-constant index into a fixed-size array (or a pointer to one) in a reader is bounded
+// by the array length: by the condition of the enclosing loop (`i < K`, K a constant ≤ N, len of the array, or a local
+// defined only as min(…, constant ≤ N)), by ranging over the array itself, or by a dominating `i == N / i >= N → return`.
+func fixedArrayIndexBounded(c *Check, g *genCtx, name string, fi *FuncInfo) {
+	info := fi.Pkg.TypesInfo
+	arrayLen := func(e ast.Expr) (int64, bool) {
+		t := info.TypeOf(e)
+		if t == nil {
+			return 0, false
+		}
+		if p, ok := t.Underlying().(*types.Pointer); ok {
+			t = p.Elem()
+		}
+		if a, ok := t.Underlying().(*types.Array); ok {
+			return a.Len(), true
+		}
+		return 0, false
+	}
+	constLE := func(e ast.Expr, n int64) bool {
+		tv, ok := info.Types[e]
+		if !ok || tv.Value == nil {
+			return false
+		}
+		v, exact := constant.Int64Val(constant.ToInt(tv.Value))
+		return exact && v <= n
+	}
+	objOf := func(e ast.Expr) types.Object {
+		if id, ok := ast.Unparen(e).(*ast.Ident); ok {
+			if o := info.Uses[id]; o != nil {
+				return o
+			}
+			return info.Defs[id]
+		}
+		return nil
+	}
+	// every definition of a local is min(…, const ≤ n)
+	minBounded := func(o types.Object, n int64) bool {
+		defs, good := 0, 0
+		ast.Inspect(fi.Decl.Body, func(x ast.Node) bool {
+			as, ok := x.(*ast.AssignStmt)
+			if !ok {
+				if inc, ok := x.(*ast.IncDecStmt); ok && objOf(inc.X) == o {
+					defs++
+				}
+				return true
+			}
+			for i, l := range as.Lhs {
+				if objOf(l) != o {
+					continue
+				}
+				defs++
+				if len(as.Rhs) != len(as.Lhs) || (as.Tok != token.DEFINE && as.Tok != token.ASSIGN) {
+					continue
+				}
+				call, ok := ast.Unparen(as.Rhs[i]).(*ast.CallExpr)
+				if !ok {
+					continue
+				}
+				if id, ok := call.Fun.(*ast.Ident); ok {
+					if b, isB := info.Uses[id].(*types.Builtin); isB && b.Name() == "min" {
+						for _, a := range call.Args {
+							if constLE(a, n) {
+								good++
+								break
+							}
+						}
+					}
+				}
+			}
+			return true
+		})
+		return defs > 0 && defs == good
+	}
+	var stack []ast.Node
+	ast.Inspect(fi.Decl.Body, func(nd ast.Node) bool {
+		if nd == nil {
+			stack = stack[:len(stack)-1]
+			return true
+		}
+		stack = append(stack, nd)
+		ix, ok := nd.(*ast.IndexExpr)
+		if !ok {
+			return true
+		}
+		n, isArr := arrayLen(ix.X)
+		if !isArr {
+			return true
+		}
+		if tv, ok := info.Types[ix.Index]; ok && tv.Value != nil {
+			return true // constant index: checked by the compiler
+		}
+		io := objOf(ix.Index)
+		ok, why := false, "the index is not a plain local variable"
+		if io != nil {
+			why = "no enclosing loop condition, range or dominating guard bounds the index by the array length " + fmt.Sprint(n)
+			for i := len(stack) - 2; i >= 0 && !ok; i-- {
+				switch p := stack[i].(type) {
+				case *ast.ForStmt:
+					be, isB := p.Cond.(*ast.BinaryExpr)
+					if !isB || be.Op != token.LSS || objOf(be.X) != io {
+						continue
+					}
+					switch {
+					case constLE(be.Y, n):
+						ok, why = true, "loop condition bounds it by a constant ≤ "+fmt.Sprint(n)
+					case func() bool {
+						call, isC := ast.Unparen(be.Y).(*ast.CallExpr)
+						if !isC || len(call.Args) != 1 {
+							return false
+						}
+						id, isID := call.Fun.(*ast.Ident)
+						if !isID || id.Name != "len" {
+							return false
+						}
+						m, isA := arrayLen(call.Args[0])
+						return isA && m <= n
+					}():
+						ok, why = true, "loop condition bounds it by the array's own length"
+					case objOf(be.Y) != nil && minBounded(objOf(be.Y), n):
+						ok, why = true, "loop condition bounds it by "+types.ExprString(be.Y)+", defined only as min(…, constant ≤ "+fmt.Sprint(n)+")"
+					default:
+						why = "the loop condition `" + types.ExprString(p.Cond) + "` does not bound the index by the array length " + fmt.Sprint(n) + " (the count comes from the input)"
+					}
+				case *ast.RangeStmt:
+					if objOf(p.Key) == io {
+						if m, isA := arrayLen(p.X); isA && m <= n {
+							ok, why = true, "ranges over an array of length ≤ "+fmt.Sprint(n)
+						}
+					}
+				case *ast.BlockStmt:
+					// a dominating guard earlier in this block: if i == N / i >= N { … return }
+					for _, st := range p.List {
+						if astContains(st, ix) {
+							break
+						}
+						is, isIf := st.(*ast.IfStmt)
+						if !isIf || is.Init != nil || len(is.Body.List) == 0 {
+							continue
+						}
+						if _, isRet := is.Body.List[len(is.Body.List)-1].(*ast.ReturnStmt); !isRet {
+							continue
+						}
+						be, isB := is.Cond.(*ast.BinaryExpr)
+						// `==` stops a counter that starts at 0 and steps by 1 only when the constant is the length itself
+						if isB && objOf(be.X) == io && (be.Op == token.GEQ && constLE(be.Y, n) || be.Op == token.EQL && constLE(be.Y, n) && !constLE(be.Y, n-1)) {
+							ok, why = true, "dominated by `"+types.ExprString(is.Cond)+" → return`"
+						}
+					}
+				}
+			}
+		}
+		c.Ob("reader/fixed-array-index-bounded", name+"/"+types.ExprString(ix.X), ok, posStr(g.co.Fset, ix.Pos()), why)
+		return true
+	})
 }
